@@ -560,6 +560,37 @@ func cycleCase(expire time.Duration, prefix []op) harness.Case {
 	}}
 }
 
+// sharingCase: several senders open topics (each within its own limit); another sender then sends on
+// all of those topics. Its topic count must stay within the limit (give or take one) whoever
+// opened the topics; afterwards everything is started and the bookkeeping must be released.
+func sharingCase(expire time.Duration, openers int) harness.Case {
+	return harness.Case{ID: fmt.Sprintf("e%d/sharing/%d-openers", int(expire/time.Second), openers), Run: func(c *harness.C) {
+		reported := map[string]bool{}
+		var h []op
+		var topics []string
+		for s := 0; s < openers; s++ {
+			for j := 0; j < maxTopics; j++ {
+				t := fmt.Sprintf("T%02d", s*maxTopics+j)
+				topics = append(topics, t)
+				h = append(h, op{K: "recv", S: uint16(s + 2), T: t})
+			}
+		}
+		for _, t := range topics {
+			h = append(h, op{K: "recv", S: 1, T: t})
+		}
+		for _, t := range topics {
+			h = append(h, op{K: "recv", S: 1, T: t})
+		}
+		for _, t := range topics {
+			h = append(h, op{K: "send", T: t})
+		}
+		runHist(c, expire, h, true, reported)
+		c.Add("executions", 1)
+		c.Add("transitions", len(h))
+		c.Outcome(fmt.Sprintf("%v|sharing|%d", expire, openers))
+	}}
+}
+
 func gen(c *harness.C) []harness.Case {
 	c.Note("rule", "sequential histories on the real msg.Box in a bubble (virtual wall clock, harness ticker as epoch clock, limits: 2 topics per sender, 100 messages per sender and topic, GCSweep 1s, GCExpire 2s/4s); BFS over the operation alphabet with deduplication on the reflection dump; a map-based reference model decides which messages are within the limits; from every state of depth <= 3 a release horizon of 3*GCExpire epochs is run; distinct_nontrivial = distinct histories of the release checks and cycles")
 	depth := 5
@@ -573,6 +604,9 @@ func gen(c *harness.C) []harness.Case {
 	for _, e := range []time.Duration{2 * time.Second, 4 * time.Second} {
 		for _, first := range alphabet(c.Thorough()) {
 			cases = append(cases, bfsCase(e, first, depth, c.Thorough()))
+		}
+		for _, n := range []int{2, 3, 5} {
+			cases = append(cases, sharingCase(e, n))
 		}
 		for _, p := range [][]op{nil, {{K: "recv", S: 1, T: "A"}}, {{K: "recv", S: 1, T: "A"}, {K: "recv", S: 1, T: "B"}}, {{K: "idle", N: 5}}, {{K: "send", T: "A"}, {K: "idle", N: 5}}} {
 			cases = append(cases, cycleCase(e, p))
